@@ -579,6 +579,8 @@ func c05Directed() []c05Dir {
 		{0, 0, []*c05Op{o1("glob", "./a")}},
 		{0, 0, []*c05Op{o1("glob", "a/")}},
 		{0, 0, []*c05Op{o1("glob", "d/[")}},
+		// a literal pattern names a match whenever lstat succeeds: a link that does not resolve (dangling, pointing at itself) IS one
+		{0, 0, []*c05Op{sym("nowhere", "dl"), o1("glob", "dl"), o1("glob", "d*"), sym("sl", "sl"), o1("glob", "sl"), o1("glob", "./dl")}},
 		// the backslash is a magic character too: patterns whose only magic is an escape
 		{0, 0, []*c05Op{o1("glob", "\\a"), o1("glob", "a/\\b"), o1("glob", "\\a/b"), o1("glob", "\\a/*"), o1("glob", "a/\\*")}},
 		{0, 0, []*c05Op{o1("glob", "a\\")}},
